@@ -362,31 +362,42 @@ func trailingBackslashes(s string) int {
 
 var gooseWords = []string{"-- +goose Up", "Down", "StatementBegin", "StatementEnd"}
 
-// gooseLineHazard: the input classes GooseFile.StmtDecls mishandles (line filter in front of the scanner).
-func gooseLineHazard(cmd string) bool {
+// gooseLineHazard: the input classes GooseFile.StmtDecls mishandles (line filter in front of the
+// scanner); "" = none.  pragma-word: a line containing Down/StatementBegin/StatementEnd/"-- +goose Up"
+// is dropped (ungrouped alternation); line-split: trailing white space (incl. \r) of a line is
+// trimmed, an inner line ending in ';' splits the command.
+func gooseLineHazard(cmd string) string {
 	lines := strings.Split(cmd, "\n")
-	for i, l := range lines {
+	for _, l := range lines {
 		for _, wd := range gooseWords {
 			if strings.Contains(l, wd) {
-				return true
+				return "goose-pragma-word"
 			}
 		}
+	}
+	for i, l := range lines {
 		t := strings.TrimRightFunc(l, unicode.IsSpace)
 		if t != l {
-			return true
+			return "goose-line-split"
 		}
 		if i < len(lines)-1 && strings.HasSuffix(t, ";") {
-			return true
+			return "goose-line-split"
 		}
 		if strings.HasPrefix(l, "--") && i == len(lines)-1 {
-			return true
+			return "goose-line-split"
 		}
 	}
-	return false
+	return ""
 }
 
-func dbmateLineHazard(cmd string) bool {
-	return strings.Contains(cmd, "down") || strings.Contains(cmd, "-- migrate:up") || strings.Contains(cmd, "\r")
+func dbmateLineHazard(cmd string) string {
+	if strings.Contains(cmd, "down") || strings.Contains(cmd, "-- migrate:up") {
+		return "dbmate-pragma-word"
+	}
+	if strings.Contains(cmd, "\r") {
+		return "dbmate-carriage-return"
+	}
+	return ""
 }
 
 // triggerClass: the oracle class of a failing case, computed from the INPUT only.  The first
@@ -434,15 +445,15 @@ func triggerClass(c *planCase) string {
 	}
 	if c.fm.name == "goose" {
 		for _, ch := range p.Changes {
-			if gooseLineHazard(ch.Cmd) {
-				return "goose-line-filter"
+			if h := gooseLineHazard(ch.Cmd); h != "" {
+				return h
 			}
 		}
 	}
 	if c.fm.name == "dbmate" {
 		for _, ch := range p.Changes {
-			if dbmateLineHazard(ch.Cmd) {
-				return "dbmate-line-filter"
+			if h := dbmateLineHazard(ch.Cmd); h != "" {
+				return h
 			}
 		}
 	}
